@@ -37,6 +37,7 @@ def pTIn : TP TIn := do
 
 def showErr : Err → String
   | .eof => "err:eof"
+  | .ueof => "err:ueof"
   | .invalid _ => "err:invalid"
   | .panic s => s!"panic:{s}"
   | .alloc s _ => s!"alloc:{s}"
